@@ -3,11 +3,19 @@
   (or the compiled `nxsdriver`).  Unknown or malformed operations answer `bad-op`.
 -/
 import NxsModel.Driver.Frame
+import NxsModel.Driver.Codec
+import NxsModel.Driver.Stream
 open Nxs Nxs.Driver
 
 def dispatch (toks : List String) : String :=
   match toks with
   | "frame" :: rest => (frameOp rest).getD "bad-op"
+  | "recv" :: rest => (recvOp rest).getD "bad-op"
+  | "req" :: rest => (reqOp rest).getD "bad-op"
+  | "info" :: rest => (infoOp rest).getD "bad-op"
+  | "pad" :: rest => (padOp rest).getD "bad-op"
+  | "rec" :: rest => (recOp rest).getD "bad-op"
+  | "stream" :: rest => (streamOp rest).getD "bad-op"
   | _ => "bad-op"
 
 partial def loop (h : IO.FS.Stream) (out : IO.FS.Stream) : IO Unit := do
